@@ -87,7 +87,7 @@ def eval_real(pt, case):
     from periodictable import nsf
     ms, mix = weighted_formula(pt, case)
     ws = case["ws"]
-    warg = ws[0] if case["mode"] == "scalar" else np.array(ws)
+    warg = ws[0] if case["mode"] == "scalar" else nc.reused_array(ws)   # one buffer per length, refilled in place
     out = {}
     try:
         calc = nsf.neutron_composite_sld(ms, wavelength=warg)
@@ -287,6 +287,9 @@ def run(run: Run) -> int:
     cases = [gen_case(run.rng, pools) for _ in range(n)]
     for i in range(0, n, 2500):
         run_cases(run, pt, tl, cases[i:i + 2500])
+    # replay consistency: the first cases once more at the end of the run – a result must not depend on
+    # what was computed in between (stale or poisoned state)
+    run_cases(run, pt, tl, cases[:200])
     return run.finish(RULE, assumptions=[
         "floating-point rounding: compared at 1e-9 (incoherent SLD through σ_i with absolute tolerance 1e-12·σ_s, DESIGN 4.5)",
         "numpy broadcasting (weights[:, None], np.sum(axis=0)) is modelled as the pointwise map over the wavelength vector",
